@@ -67,7 +67,7 @@ META = {
 SPEC_DIR = "Att"
 DECL_DIR = os.path.join(vlib.SPEC, "Att", "decls")
 JOBS = max(1, min(4, int(os.environ.get("VERIF_JOBS", "4"))))
-CHUNK = 9000          # events per trace file
+CHUNK = 5000          # events per trace file
 
 
 def load(name):
@@ -202,7 +202,7 @@ def cyclic(chars, n):
     return [{k + 1: chars[(i + k) % len(chars)] for k in range(n)} for i in range(len(chars))]
 
 
-def c06_scripts(c, srv, behs_all, behs_deep, rng):
+def c06_scripts(c, srv, behs_all, behs_3, behs_deep, rng):
     """-> list of executions (each a list of script lines starting with reset)"""
     chars = characteristics(srv)
     big = srv.norm["opts"]["mtu"]
@@ -212,7 +212,7 @@ def c06_scripts(c, srv, behs_all, behs_deep, rng):
         # the model's twin: every generated behaviour literally (model characteristic k = characteristic k)
         sc = Scaler(srv, chars, {k + 1: own[k] for k in range(len(own))}, {}, 0, 23)
         sc.fill = lambda n, f: [((i + 1 + f) % 2) + 1 for i in range(n)]         # the octets of AttValuesGen!Fill
-        for b in behs_all + behs_deep:
+        for b in behs_all + behs_3 + behs_deep:
             execs.append(["reset"] + [sc.line(op) for op in b])
         return execs
     maps = cyclic(chars, 3)
@@ -348,16 +348,19 @@ def c09_groups(n, quick):
     return g[:2] if quick else g
 
 
-def c09_scripts(c, srv, behs_all, behs_deep, rng):
+def c09_scripts(c, srv, si, behs_all, behs_3, behs_deep, rng):
     chars = characteristics(srv)
     cc = [ch for ch in chars if ch.ch]
     execs = []
     for gi, g in enumerate(c09_groups(len(cc), c.quick)):
         sc = Scaler(srv, chars, {}, {i + 1: cc[p - 1] for i, p in enumerate(g)}, 0, 23)
-        for b in (behs_all if gi == 0 or not c.quick else behs_all[gi::3]) + behs_deep:
+        # quick tier: every second behaviour of the complete set per group (the groups of all servers together cover it several
+        # times); thorough tier: the complete set on the first group of every server, an eighth of it on every other group
+        part = behs_all[(si + gi) % 2::2] if c.quick else (behs_all + behs_3 if gi == 0 else behs_all[gi % 8::8])
+        for b in part + behs_deep:
             execs.append(["reset"] + [sc.line(op) for op in b])
     # seeded random sequences over all descriptors and connections (plain random inputs, drawn here)
-    for _ in range(12 if c.quick else 80):
+    for _ in range(6 if c.quick else 80):
         ln = ["reset"]
         for _ in range(rng.randint(50, 200)):
             con = rng.randint(0, 2)
@@ -410,7 +413,7 @@ def run_execs(c, srv, tag, execs):
         rc, o = vlib.run_harness(srv.exe, [srv.norm_path, sp, tp])
         if rc != 0:
             raise vlib.ToolFailure("att harness failed rc=%d on %s: %s" % (rc, sp, o[-2000:]))
-        out.append((tp, lines))
+        out.append((srv, tp, lines))
     return out
 
 
@@ -442,12 +445,12 @@ def signature(why):
     return "%s|%s|%s|%s" % (name, kind, ",".join(sorted(tags)), rest)
 
 
-def validate(c, srv, runs, counts):
-    """TLC trace validation of the trace files of one server; reports every mismatch as a finding"""
-    paths = [tp for tp, _ in runs]
-    with ThreadPoolExecutor(min(len(paths), JOBS)) as ex:
-        verdicts = list(ex.map(lambda p: vlib.validate_trace(SPEC_DIR, "AttValuesTrace.tla", "Trace.cfg", p, timeout=2400, heap="4g"), paths))
-    for (tp, lines), v in zip(runs, verdicts):
+def validate(c, runs, counts):
+    """TLC trace validation of all trace files (runs = [(server, trace path, script lines)]), JOBS at a time;
+    every event the specification cannot explain becomes a finding"""
+    with ThreadPoolExecutor(max(1, min(len(runs), JOBS))) as ex:
+        verdicts = list(ex.map(lambda r: vlib.validate_trace(SPEC_DIR, "AttValuesTrace.tla", "Trace.cfg", r[1], timeout=2400, heap="4g"), runs))
+    for (srv, tp, lines), v in zip(runs, verdicts):
         evs = vlib.read_ndjson(tp)
         if len(evs) != len(lines) and not (evs and evs[-1].get("e") == "Crash"):
             raise vlib.ToolFailure("trace %s has %d events for %d script lines" % (tp, len(evs), len(lines)))
@@ -458,7 +461,7 @@ def validate(c, srv, runs, counts):
         crash = [i + 1 for i, e in enumerate(evs) if e.get("e") == "Crash"]
         for ln in sorted(set(v.mismatch_lines + crash)):
             ev = evs[ln - 1]
-            start = max(i for i in range(ln) if lines[i] == "reset") if ln <= len(lines) else 0
+            start = max(i for i in range(min(ln, len(lines))) if lines[i] == "reset")
             script = lines[start:ln]
             if ev.get("e") == "Crash":
                 prev = evs[ln - 2] if ln >= 2 else {}
@@ -538,35 +541,43 @@ def run(c):
     build_servers(c, servers)
     c.extra["declarations"] = [_gatt.decl_summary(s) for s in servers]
 
-    # 2. behaviours
-    depth = 2 if c.quick else 3
-    behs_all = generate(c, prop, model.norm_path, depth, 1)
+    # 2. behaviours: the complete set of sequences of 2 operations (alphabet level 1 in the quick, 2 in the thorough tier), in the
+    #    thorough tier also all sequences of 3 operations (level 1; each server replays a share of them), and simulated deep ones
+    behs_all = generate(c, prop, model.norm_path, 2, 1 if c.quick else 2)
+    behs_3 = [] if c.quick else generate(c, prop, model.norm_path, 3, 1)
     ddeep = {"C06": 14, "C08": 4, "C09": 12}[prop]
-    nsim = {"C06": (40, 400), "C08": (30, 200), "C09": (40, 400)}[prop][0 if c.quick else 1]
+    nsim = {"C06": (40, 400), "C08": (30, 200), "C09": (40, 300)}[prop][0 if c.quick else 1]
     behs_deep = generate(c, prop, model.norm_path, ddeep, 2, simulate=nsim)[:nsim]
     c.sample({"behaviour_bfs": behs_all[len(behs_all) // 2], "behaviour_simulated": behs_deep[0]})
-    c.extra["rule"] = ("behaviours: all sequences of %d abstract operations of AttValuesGen (Mode %s, %d behaviours) + %d simulated ones of "
-                       "length %d, encoded per server by checks/att_values.py (Scaler = twin of AttValuesGen!PduOf); random request "
-                       "sequences (50-200 requests, arbitrary offsets / lengths) are plain random inputs drawn by the check (seed %d)"
-                       % (depth, prop, len(behs_all), len(behs_deep), ddeep, c.seed))
+    c.extra["rule"] = ("behaviours: all %d sequences of 2 abstract operations of AttValuesGen (Mode %s)%s + %d simulated ones of length %d, "
+                       "encoded per server by checks/att_values.py (Scaler = twin of AttValuesGen!PduOf); random request sequences "
+                       "(50-200 requests, arbitrary offsets / lengths) are plain random inputs drawn by the check (seed %d)"
+                       % (len(behs_all), prop, (" + all %d sequences of 3 operations (shared out over the servers)" % len(behs_3)) if behs_3 else "",
+                          len(behs_deep), ddeep, c.seed))
     c.exhaustive = True
 
-    # 3. replay + 4. trace validation, server by server
-    counts = {}
+    # 3. replay on the real servers
+    counts, runs = {}, []
     for s in servers:
         if prop == "C06":
-            ex = c06_scripts(c, s, behs_all, behs_deep, rng) + c06_random(c, s, rng, 10 if c.quick else 60)
+            ex = c06_scripts(c, s, behs_all, behs_3[::16], behs_deep, rng) + c06_random(c, s, rng, 8 if c.quick else 60)
         elif prop == "C08":
-            ex = c08_scripts(c, s, behs_all, False) + c08_scripts(c, s, behs_deep, True)
+            si, n = servers.index(s), len(servers)
+            # quick tier: every sequence of 2 exchanges on two of the five servers; thorough: on all, sequences of 3 shared out
+            part = (behs_all[si % n::n] + behs_all[(si + 2) % n::n]) if c.quick and n >= 3 else behs_all + behs_3[si::n]
+            ex = c08_scripts(c, s, part, False) + c08_scripts(c, s, behs_deep[si::2] if c.quick else behs_deep, True)
         else:
-            ex = c09_scripts(c, s, behs_all, behs_deep, rng)
+            ex = c09_scripts(c, s, servers.index(s), behs_all, behs_3[servers.index(s)::8 * len(servers)], behs_deep, rng)
         t0 = time.time()
-        runs = run_execs(c, s, prop, ex)
-        t1 = time.time()
-        validate(c, s, runs, counts)
-        c.note("%s: %d executions, %d commands, run %.1fs, validated in %.1fs" % (s.name, len(ex), sum(len(e) for e in ex), t1 - t0, time.time() - t1))
-        evs = vlib.read_ndjson(runs[0][0])
+        rs = run_execs(c, s, prop, ex)
+        runs += rs
+        c.note("%s: %d executions, %d commands in %d trace files, run in %.1fs" % (s.name, len(ex), sum(len(e) for e in ex), len(rs), time.time() - t0))
+        evs = vlib.read_ndjson(rs[0][1])
         c.sample({"declaration": s.name, "events": [{k: e[k] for k in e if k != "decl"} for e in evs[1:4]]})
+    # 4. trace validation
+    t0 = time.time()
+    validate(c, runs, counts)
+    c.note("%d trace files validated in %.1fs" % (len(runs), time.time() - t0))
     c.extra["events_by_action"] = counts
     for k in NEED[prop]:
         if not counts.get(k) and not only:
@@ -587,5 +598,5 @@ def replay(c):
     build_servers(c, servers)
     runs = run_execs(c, servers[0], "replay", [case["script"]])
     counts = {}
-    validate(c, servers[0], runs, counts)
-    c.sample([{k: e[k] for k in e if k != "decl"} for e in vlib.read_ndjson(runs[0][0])[-3:]])
+    validate(c, runs, counts)
+    c.sample([{k: e[k] for k in e if k != "decl"} for e in vlib.read_ndjson(runs[0][1])[-3:]])
